@@ -278,16 +278,16 @@ example : balancedB (evsOf Config.htmlNoRaw hostileText) [] = true ∧ (evsOf Co
   decide +kernel
 
 /-- the theorems applied: configuration known, gas bound satisfiable -/
-example : ∃ d, Document.parse (Config.html.get (by decide +kernel)) 2000 hostileText = .ok d ∧
-    Config.renderHtml {} 2000 hostileText = some (render {} d) ∧
+example : ∃ d, Document.parse (Config.html.get (by decide +kernel)) 4000 hostileText = .ok d ∧
+    Config.renderHtml {} 4000 hostileText = some (render {} d) ∧
     render {} d = flat (renderDoc (Opts.q {}) d) ∧ WellFormed (renderDoc (Opts.q {}) d)
     ∧ rawsOf (renderDoc (Opts.q {}) d) = (if (renderDoc (Opts.q {}) d).isEmpty then [] else htmlOfL d.kids) :=
-  C08_every_text {} (Config.html.get (by decide +kernel)) (Option.some_get _).symm 2000 _ (by decide +kernel)
+  C08_every_text {} (Config.html.get (by decide +kernel)) (Option.some_get _).symm 4000 _ (by decide +kernel)
 
-example : ∃ d, Document.parse (Config.htmlNoRaw.get (by decide +kernel)) 2000 hostileText = .ok d ∧
-    Config.renderHtmlNoRaw {} 2000 hostileText = some (flat (renderDoc (Opts.q {}) d)) ∧
+example : ∃ d, Document.parse (Config.htmlNoRaw.get (by decide +kernel)) 4000 hostileText = .ok d ∧
+    Config.renderHtmlNoRaw {} 4000 hostileText = some (flat (renderDoc (Opts.q {}) d)) ∧
     WellFormed (renderDoc (Opts.q {}) d) ∧ ∀ e ∈ renderDoc (Opts.q {}) d, isRaw e = false :=
-  C08_every_text_no_raw {} (Config.htmlNoRaw.get (by decide +kernel)) (Option.some_get _).symm 2000 _ (by decide +kernel)
+  C08_every_text_no_raw {} (Config.htmlNoRaw.get (by decide +kernel)) (Option.some_get _).symm 4000 _ (by decide +kernel)
 
 /-- `levelsOks` is what `shapeOk` was needed for: a level-7 heading (no parse produces it) is outside C08 -/
 example : levelsOks [.heading 7 [] [] 1] = false ∧ Doc.shapeOk ⟨[.heading 7 [] [] 1], []⟩ = false := by decide
